@@ -5,6 +5,8 @@ C10 — line-protocol driver of the model (core only).
   ins <mst> <k=v,…|->                        → id <n>
   get <mst> <k=v,…|->                        → id <n>
   flush | clear | reopen | restart <dt> | sib → ok
+  pflush | bump | evictf                     → ok          (periodic flush, deferred flush callback, filter caches evicted)
+  evict <n> (<mst> <tags>)*n                 → ok          (the series-key cache keeps only these series)
   del <mst> <PRED>                           → del <deleted ids, ascending>
   show | sel | keys <mst> <PRED>             → ids <ascending>
   tagvals <mst> <key> <PRED>                 → vals <ascending>
@@ -347,6 +349,16 @@ def dedupSorted : List Str → List Str
 def showIds (pre : String) (l : List Id) : String :=
   (sortIds l).foldl (fun acc i => acc ++ " " ++ toString i) pre
 
+/-- `<mst> <tags>` pairs -/
+def parseKeyList : List String → Option (List SKey)
+  | [] => some []
+  | m :: t :: rest => do
+    let m ← unhex m
+    let tags ← parseTags t
+    let ks ← parseKeyList rest
+    some (⟨m, tags⟩ :: ks)
+  | _ => none
+
 def stepSearch (s : St) : List String → St × String
   | "del" :: m :: rest =>
     match unhex m, parsePred rest with
@@ -399,6 +411,13 @@ def step (s : St) (line : String) : St × String :=
     | some dt => (restart s dt, "ok")
     | none => (s, "bad-op")
   | ["sib"] => (s, "ok")
+  | ["pflush"] => (pflush s, "ok")
+  | ["bump"] => (bump s, "ok")
+  | ["evictf"] => (evictFilters s, "ok")
+  | "evict" :: n :: rest =>
+    match n.toNat?, parseKeyList rest with
+    | some n, some keys => if keys.length == n then (evict s (fun k => keys.contains k), "ok") else (s, "bad-op")
+    | _, _ => (s, "bad-op")
   | kind :: rest =>
     if isByteOp kind then
       match byteOp s (kind :: rest) with
